@@ -223,9 +223,9 @@ pub fn gen_duration(d: &mut Dec) -> TimeDelta {
     }
 }
 
-const UNI: [char; 24] = [
+const UNI: [char; 30] = [
     'a', 'Z', '0', ' ', '_', '"', '\\', '\n', '\t', '\r', 'ß', 'é', 'Σ', 'σ', 'ǅ', 'İ', 'ı', '\u{a0}', '\u{2003}',
-    '\u{85}', '\u{200b}', '😀', '\u{301}', '\u{0}',
+    '\u{85}', '\u{200b}', '😀', '\u{301}', '\u{0}', ';', '@', ':', '/', '\'', '}',
 ];
 
 pub fn gen_string(d: &mut Dec) -> String {
